@@ -95,6 +95,25 @@ fn rejected_inputs(spec: &CoreSpec, f: &F, view: &View) -> Vec<(usize, Ev, Res)>
         d.push(0);
         v.push((8, Ev::Data(d), Res::Err(ErrKind::MalformedPacket)));
     }
+    // ... for every other kind too, and with a header that carries news about
+    // its sender (a higher incarnation, a sender never heard of): rejected
+    // means the header teaches nothing either
+    for (src, inc) in [(b, 5u16), (id(D, 3), 0)] {
+        for msg in [
+            Message::Gossip,
+            Message::Broadcast,
+            Message::Feed,
+            Message::Ack(3),
+            Message::PingReq { target: c, probe_number: 3 },
+            Message::IndirectPing { origin: c, probe_number: 3 },
+            Message::IndirectAck { target: c, probe_number: 3 },
+            Message::ForwardedAck { origin: c, probe_number: 3 },
+        ] {
+            let mut d = dgram(&codec, src, inc, me, msg, None, &[]);
+            d.push(0);
+            v.push((8, Ev::Data(d), Res::Err(ErrKind::MalformedPacket)));
+        }
+    }
     // 9 Announce with payload
     let mut d = dgram(&codec, b, 0, me, Message::Announce, None, &[]);
     d.extend_from_slice(&[0, 1, C, 0, 0, 0, 0]);
@@ -157,6 +176,13 @@ fn rejected_inputs(spec: &CoreSpec, f: &F, view: &View) -> Vec<(usize, Ev, Res)>
     // 15 / 16 add_broadcast
     v.push((15, Ev::AddBroadcast(vec![]), Res::Err(ErrKind::MalformedPacket)));
     v.push((16, Ev::AddBroadcast(vec![1; cfg.max_packet + 1]), Res::Err(ErrKind::DataTooBig)));
+    if cfg.max_packet > usize::from(u16::MAX) {
+        // fits the packet but not the 16-bit length prefix of its frame; its
+        // key (0, version 200) would invalidate every item the alphabet adds
+        let mut big = vec![0u8, 200];
+        big.resize(usize::from(u16::MAX) + 1, 0xAB);
+        v.push((16, Ev::AddBroadcast(big), Res::Err(ErrKind::DataTooBig)));
+    }
     v
 }
 
@@ -324,7 +350,9 @@ pub fn c17_specs(tier: &str) -> Vec<(C17Spec, Limits)> {
     let mut out = Vec::new();
     // third variant: one periodic task on, the others off (a rejected
     // configuration may combine switching one off with enabling another)
-    for (pol, packet, periodic) in [(Renew::Next, 60usize, false), (Renew::None, 1400, false), (Renew::Next, 200, true)] {
+    // fourth variant: packets larger than the 16-bit length prefix of a
+    // custom-broadcast frame
+    for (pol, packet, periodic) in [(Renew::Next, 60usize, false), (Renew::None, 1400, false), (Renew::Next, 200, true), (Renew::None, 70_000, false)] {
         let me = id(A, 1).with(pol);
         let cfg = Cfg { max_packet: packet, notify_down: true, announce: periodic.then_some((500, 1)), ..Cfg::default() };
         let mut base = CoreSpec::new(&format!("c17-{pol:?}-pkt{packet}"), me, cfg);
@@ -346,7 +374,7 @@ pub fn c17_specs(tier: &str) -> Vec<(C17Spec, Limits)> {
         sb.fire(|t| matches!(t, TimerKey::ProbeRandomMember(_)));
         base.seed_hists.push(sb.done());
         let spec = C17Spec { base, cont_depth: if th { 2 } else { 1 }, pairs: th };
-        let lim = if th { Limits { max_depth: 4, seed_depth: 3, max_states: 400_000, max_wall_s: 1500.0 } } else { Limits { max_depth: 3, seed_depth: 2, max_states: 60_000, max_wall_s: 40.0 } };
+        let lim = if th { Limits { max_depth: 4, seed_depth: 3, max_states: 400_000, max_wall_s: 500.0 } } else { Limits { max_depth: 3, seed_depth: 2, max_states: 60_000, max_wall_s: 120.0 } };
         out.push((spec, lim));
     }
     out
